@@ -577,18 +577,37 @@ pub fn explore_under(name: &str, f: Scenario, root: Vec<u32>, opts: &Opts) -> St
         levels += 1;
         let mut next_items: Vec<Vec<u32>> = Vec::new();
         let mut full = false;
-        for p in items.into_iter() {
+        // the probing runs of one level are independent: do them on all workers (a scenario may be
+        // expensive), then expand in item order so that the schedule stays deterministic
+        let probes = par_for(opts.threads, items.len(), &Vec::new, &|i, acc: &mut Vec<(usize, Option<(u32, bool, u32)>)>| {
+            let p = &items[i];
+            let ctx = run_once(f, p.clone(), Mode::Full, opts.seed, false);
+            let info = if ctx.trace.len() == p.len() {
+                None
+            } else {
+                let (_, a, free) = ctx.trace[p.len()];
+                Some((a, free, cost(&ctx.trace[..p.len()])))
+            };
+            acc.push((i, info));
+        });
+        let mut info_of: Vec<Option<(u32, bool, u32)>> = vec![None; items.len()];
+        for part in probes {
+            for (i, info) in part {
+                info_of[i] = info;
+            }
+        }
+        for (idx, p) in items.into_iter().enumerate() {
             if full {
                 next_items.push(p);
                 continue;
             }
-            let ctx = run_once(f, p.clone(), Mode::Full, opts.seed, false);
-            if ctx.trace.len() == p.len() {
-                leaves.push(p);
-                continue;
-            }
-            let (_, a, free) = ctx.trace[p.len()];
-            let base_cost = cost(&ctx.trace[..p.len()]);
+            let (a, free, base_cost) = match info_of[idx] {
+                None => {
+                    leaves.push(p);
+                    continue;
+                }
+                Some(x) => x,
+            };
             for k in 0..a {
                 let c = base_cost + if k != 0 && !free { 1 } else { 0 };
                 if opts.bound.map_or(true, |b| c <= b) {
